@@ -31,7 +31,11 @@ def evaluate(corr, results, nontrivial=None, known=None, panic_is_violation=True
             continue
         if impl.startswith('PROTOCOL-ERROR') or model.startswith('PROTOCOL-ERROR'):
             raise RuntimeError(f'protocol error on {case}: impl={impl} model={model}')
-        if (use_verdicts and verdict.startswith('VIOLATED')) or (panic_is_violation and impl == 'PANIC'):
+        if impl.startswith('FORMS-DIFFER'):
+            # the harness evaluates every rule / profile operation through more than one API form (C16); the content
+            # of the result must not depend on it, whatever property this run is about
+            corr.spec_violations.append((case, impl, 'VIOLATED:result depends on the API form (borrowed / owned / Cow argument, fresh / long-lived / static instance)'))
+        elif (use_verdicts and verdict.startswith('VIOLATED')) or (panic_is_violation and impl == 'PANIC'):
             corr.spec_violations.append((case, impl, verdict if verdict.startswith('VIOLATED') else 'implementation panicked'))
         if impl != model:
             corr.disagreements.append((case, impl, model))
